@@ -357,9 +357,10 @@ func replayStream(line []byte, a *Acc) {
 	}
 	if l.Mode == "" {
 		checkLongZeroReads(a) // (replay case of a long-zero-read finding)
+		checkDeepAndPipes(a)
 		return
 	}
-	longZeroOnce.Do(func() { checkLongZeroReads(a) })
+	longZeroOnce.Do(func() { checkLongZeroReads(a); checkDeepAndPipes(a) })
 	entries := xmlEntries
 	variants := 2
 	if l.Mode == "json" {
@@ -612,6 +613,139 @@ func checkLongZeroReads(a *Acc) {
 			if err != nil || tagged.CanonGo(m) != tagged.CanonGo(want) {
 				a.Mis("stream:xml:zero-reads-long", fmt.Sprintf("NewMapXmlReader, document %d with %d empty read(s) before every byte: %v", i+1, gap, err), map[string]string{"f": "stream"})
 				break
+			}
+		}
+	}
+}
+
+// documents nested deeper than any 8-bit counter, one after the other on one stream; and streams that are an *os.File
+// which cannot seek (a pipe) or can (a regular file): the documents, in order, then io.EOF -- as from any other reader
+func checkDeepAndPipes(a *Acc) {
+	c := map[string]string{"f": "stream"}
+	for _, depth := range []int{255, 256, 257, 300} { // (below tagged.MaxDepth)
+		jdeep := strings.Repeat(`{"a":`, depth) + `1` + strings.Repeat(`}`, depth)
+		jdocs := []string{jdeep, `{"s":"}{"}`, jdeep, `{"t":[{"u":1}]}`}
+		want := make([]string, len(jdocs))
+		for i, d := range jdocs {
+			m, err := mxj.NewMapJson([]byte(d))
+			if err != nil {
+				panic("deep JSON reference: " + err.Error())
+			}
+			want[i] = tagged.CanonGo(m)
+		}
+		stream := strings.Join(jdocs, "\n")
+		rd := strings.NewReader(stream)
+		for i := range jdocs {
+			m, err := mxj.NewMapJsonReader(rd)
+			if err != nil || tagged.CanonGo(m) != want[i] {
+				a.Mis("stream:json:deep", fmt.Sprintf("NewMapJsonReader, document %d of a stream whose documents 1 and 3 are objects nested %d deep: err %v, Map equal to NewMapJson of the document: %v", i+1, depth, err, err == nil && tagged.CanonGo(m) == want[i]), c)
+				break
+			}
+		}
+		rd = strings.NewReader(stream)
+		for i := range jdocs {
+			m, raw, err := mxj.NewMapJsonReaderRaw(rd)
+			if err != nil || tagged.CanonGo(m) != want[i] || string(raw) != jdocs[i] {
+				a.Mis("stream:json:deep", fmt.Sprintf("NewMapJsonReaderRaw, document %d of a stream whose documents 1 and 3 are objects nested %d deep: err %v, %d raw bytes of %d", i+1, depth, err, len(raw), len(jdocs[i])), c)
+				break
+			}
+		}
+		n, nerr := 0, 0
+		mxj.HandleJsonReader(strings.NewReader(stream), func(m mxj.Map) bool {
+			if n < len(want) && tagged.CanonGo(m) != want[n] {
+				nerr++
+			}
+			n++
+			return true
+		}, func(error) bool { nerr++; return false })
+		if n != len(jdocs) || nerr != 0 {
+			a.Mis("stream:json:deep", fmt.Sprintf("HandleJsonReader over %d documents (1 and 3 nested %d deep): %d Maps handed over, %d wrong or error calls", len(jdocs), depth, n, nerr), c)
+		}
+		xdeep := strings.Repeat("<a>", depth) + "t" + strings.Repeat("</a>", depth)
+		xdocs := []string{xdeep, `<s k="&gt;">x</s>`, xdeep}
+		xr := strings.NewReader(strings.Join(xdocs, ""))
+		for i, d := range xdocs {
+			wm, _ := mxj.NewMapXml([]byte(d))
+			m, raw, err := mxj.NewMapXmlReaderRaw(xr)
+			if err != nil || tagged.CanonGo(m) != tagged.CanonGo(wm) || string(raw) != d {
+				a.Mis("stream:xml:deep", fmt.Sprintf("NewMapXmlReaderRaw, document %d of a stream whose documents 1 and 3 are elements nested %d deep: err %v, %d raw bytes of %d", i+1, depth, err, len(raw), len(d)), c)
+				break
+			}
+		}
+	}
+	// *os.File streams
+	xdocs := []string{`<a k="1"><b>x</b></a>`, `<c/>`, `<d>` + strings.Repeat("y", 5000) + `</d>`, `<e>z</e>`}
+	jdocs := []string{`{"a":{"b":"x"}}`, `{"c":[1,2]}`, `{"d":"` + strings.Repeat("y", 5000) + `"}`, `{"e":true}`}
+	open := func(kind, data string) *os.File {
+		if kind == "pipe" {
+			pr, pw, err := os.Pipe()
+			if err != nil {
+				panic(err)
+			}
+			go func() { pw.WriteString(data); pw.Close() }()
+			return pr
+		}
+		f, err := os.CreateTemp("", "mxjstream")
+		if err != nil {
+			panic(err)
+		}
+		f.WriteString(data)
+		f.Seek(0, io.SeekStart)
+		return f
+	}
+	closeF := func(kind string, f *os.File) {
+		f.Close()
+		if kind == "file" {
+			os.Remove(f.Name())
+		}
+	}
+	for _, kind := range []string{"pipe", "file"} {
+		for _, sep := range []string{"", "\n"} {
+			type entry struct {
+				name string
+				docs []string
+				read func(f *os.File) (mxj.Map, error)
+				ref  func(d string) mxj.Map
+			}
+			xref := func(d string) mxj.Map { m, _ := mxj.NewMapXml([]byte(d)); return m }
+			jref := func(d string) mxj.Map { m, _ := mxj.NewMapJson([]byte(d)); return m }
+			sref := func(d string) mxj.Map { m, _ := mxj.NewMapXmlSeq([]byte(d)); return mxj.Map(m) }
+			for _, e := range []entry{
+				{"NewMapXmlReader", xdocs, func(f *os.File) (mxj.Map, error) { return mxj.NewMapXmlReader(f) }, xref},
+				{"NewMapXmlReaderRaw", xdocs, func(f *os.File) (mxj.Map, error) { m, _, err := mxj.NewMapXmlReaderRaw(f); return m, err }, xref},
+				{"NewMapXmlSeqReader", xdocs, func(f *os.File) (mxj.Map, error) { m, err := mxj.NewMapXmlSeqReader(f); return mxj.Map(m), err }, sref},
+				{"NewMapJsonReader", jdocs, func(f *os.File) (mxj.Map, error) { return mxj.NewMapJsonReader(f) }, jref},
+				{"NewMapJsonReaderRaw", jdocs, func(f *os.File) (mxj.Map, error) { m, _, err := mxj.NewMapJsonReaderRaw(f); return m, err }, jref},
+			} {
+				f := open(kind, strings.Join(e.docs, sep))
+				for i := 0; i <= len(e.docs); i++ {
+					m, err := e.read(f)
+					if i == len(e.docs) {
+						if err != io.EOF {
+							a.Mis("stream:osfile:"+kind, fmt.Sprintf("%s on an *os.File (%s) holding %d documents: call %d gave err %v, want io.EOF", e.name, kind, len(e.docs), i+1, err), c)
+						}
+						break
+					}
+					if err != nil || tagged.CanonGo(m) != tagged.CanonGo(e.ref(e.docs[i])) {
+						a.Mis("stream:osfile:"+kind, fmt.Sprintf("%s on an *os.File (%s) holding %d documents (separator %q): call %d gave %s err %v, want document %d", e.name, kind, len(e.docs), sep, i+1, short(canonOrNil(m)), err, i+1), c)
+						break
+					}
+				}
+				closeF(kind, f)
+			}
+			f := open(kind, strings.Join(xdocs, sep))
+			n := 0
+			mxj.HandleXmlReader(f, func(m mxj.Map) bool { n++; return true }, func(error) bool { n += 100; return false })
+			closeF(kind, f)
+			if n != len(xdocs) {
+				a.Mis("stream:osfile:"+kind, fmt.Sprintf("HandleXmlReader on an *os.File (%s) holding %d documents: %d handler calls (100 per error call)", kind, len(xdocs), n), c)
+			}
+			f = open(kind, strings.Join(jdocs, sep))
+			n = 0
+			mxj.HandleJsonReader(f, func(m mxj.Map) bool { n++; return true }, func(error) bool { n += 100; return false })
+			closeF(kind, f)
+			if n != len(jdocs) {
+				a.Mis("stream:osfile:"+kind, fmt.Sprintf("HandleJsonReader on an *os.File (%s) holding %d documents: %d handler calls (100 per error call)", kind, len(jdocs), n), c)
 			}
 		}
 	}
@@ -936,11 +1070,25 @@ func replayFileRT(line []byte, a *Acc) {
 				if !okr || cat != cx {
 					one("filert:xml:readback-raw", fmt.Sprintf("NewMapsFromXmlFileRaw(%q): %d entries (err %v), raw concatenation %q", cx, len(raws), rerr, cat))
 				}
-				for _, ind := range []string{"    ", " ", "\t"} { // (longest first: each later file is shorter or equal)
+				for _, ind := range []string{"    ", " ", "\t", ""} { // (longest first: each later file is shorter or equal)
 					fxi := fx + "i"
 					if e := ms.XmlFileIndent(fxi, "", ind); e != nil {
 						one("filert:xml:indent-error", e.Error())
 						continue
+					}
+					// the file holds the per-Map indented encodings, one after the other (with nothing to indent with, too:
+					// XmlIndent("", "") is not Xml())
+					wantI := ""
+					for _, m := range ms {
+						bi, _ := m.XmlIndent("", ind)
+						wantI += string(bi)
+					}
+					if b, _ := os.ReadFile(fxi); string(b) != wantI {
+						one("filert:xml:indent-content", fmt.Sprintf("XmlFileIndent(\"\", %q) wrote %q, the concatenation of the Maps' XmlIndent(\"\", %q) is %q", ind, b, ind, wantI))
+						continue
+					}
+					if ind == "" {
+						continue // (what that text reads back as is the readers' side)
 					}
 					back, rerr := mxj.NewMapsFromXmlFile(fxi)
 					if rerr != nil || canonMaps(back) != expAll {
@@ -979,10 +1127,19 @@ func replayFileRT(line []byte, a *Acc) {
 			if !okr {
 				one("filert:json:readback-raw", fmt.Sprintf("NewMapsFromJsonFileRaw(%q): %d entries (err %v)", cj, len(raws), rerr))
 			}
-			for _, ind := range []string{"   ", " ", "\t"} {
+			for _, ind := range []string{"   ", " ", "\t", ""} {
 				fji := fj + "i"
 				if e := ms.JsonFileIndent(fji, "", ind); e != nil {
 					one("filert:json:indent-error", e.Error())
+					continue
+				}
+				wantI := make([]string, len(ms))
+				for i, m := range ms {
+					bi, _ := m.JsonIndent("", ind)
+					wantI[i] = string(bi)
+				}
+				if b, _ := os.ReadFile(fji); string(b) != strings.Join(wantI, "\n") {
+					one("filert:json:indent-content", fmt.Sprintf("JsonFileIndent(\"\", %q) wrote %q, the Maps' JsonIndent(\"\", %q) forms joined by newlines are %q", ind, b, ind, strings.Join(wantI, "\n")))
 					continue
 				}
 				back, rerr := mxj.NewMapsFromJsonFile(fji)
